@@ -140,6 +140,10 @@ type Node struct {
 	conns       []*BConn
 	down        bool
 	acceptClose bool
+	pauseRead   bool
+	pauseCond   *sync.Cond
+	slowBytes   int           // >0: read at most this many bytes per read() ...
+	slowSleep   time.Duration // ... and sleep this long after each
 
 	// INFO behaviour
 	Loading        bool
@@ -325,6 +329,43 @@ func (n *Node) SetAcceptClose(v bool) {
 	n.mu.Unlock()
 }
 
+// SetPauseRead makes every connection of the node stop calling read() (the
+// kernel buffers fill up: backpressure towards the proxy) until resumed.
+func (n *Node) SetPauseRead(v bool) {
+	n.mu.Lock()
+	if n.pauseCond == nil {
+		n.pauseCond = sync.NewCond(&n.mu)
+	}
+	n.pauseRead = v
+	n.pauseCond.Broadcast()
+	n.mu.Unlock()
+}
+
+// SetSlowRead makes the node drain its sockets slowly (bytes per read, sleep
+// after each read); bytes <= 0 restores normal reading.
+func (n *Node) SetSlowRead(bytes int, sleep time.Duration) {
+	n.mu.Lock()
+	n.slowBytes, n.slowSleep = bytes, sleep
+	n.mu.Unlock()
+}
+
+func (n *Node) slowRead() (int, time.Duration) {
+	n.mu.Lock()
+	defer n.mu.Unlock()
+	return n.slowBytes, n.slowSleep
+}
+
+func (n *Node) waitUnpaused() {
+	n.mu.Lock()
+	if n.pauseCond == nil {
+		n.pauseCond = sync.NewCond(&n.mu)
+	}
+	for n.pauseRead && !n.down {
+		n.pauseCond.Wait()
+	}
+	n.mu.Unlock()
+}
+
 func (n *Node) Conns() []*BConn {
 	n.mu.Lock()
 	defer n.mu.Unlock()
@@ -360,7 +401,16 @@ func (bc *BConn) readLoop() {
 	tmp := make([]byte, 256*1024)
 	cl := bc.Node.Cluster
 	for {
-		n, err := bc.c.Read(tmp)
+		bc.Node.waitUnpaused()
+		rb := tmp
+		sb, ss := bc.Node.slowRead()
+		if sb > 0 && sb < len(rb) {
+			rb = tmp[:sb]
+		}
+		n, err := bc.c.Read(rb)
+		if sb > 0 && ss > 0 {
+			time.Sleep(ss)
+		}
 		if n > 0 {
 			buf = append(buf, tmp[:n]...)
 			for {
